@@ -228,7 +228,7 @@ def run(chk):
         "by a broadcast on that condvar before the unlock (or is on the waiter's own side), L6 every wait "
         "predicate contains the shutdown/failure flag, L7 ticket discipline; L8/L9 the block processor's use of "
         "set_worker_ptr / dequeue+get_status; L11 a node that becomes the tail of a queue (threaded and serial pool) has "
-        "a NULL link: fresh from calloc, or cleared on every path since it left its last list.")
+        "a NULL link: fresh from calloc, or cleared on every path since it left its last list; L12 every way on which dequeue may hand an item back passes the decrement of the count of items in flight.")
     chk.assumptions = ["pthread primitives behave as specified by POSIX",
                        "sortedness of the done list, exactly-once as a counting argument and fairness are not decided"]
     st = prog.struct(POOL)
@@ -486,6 +486,8 @@ def run(chk):
 
     block_processor_rules(chk, prog)
     tail_append_rule(chk, prog)
+    count_balance_rule(chk, prog, unit)
+    chk.floor("L12", 1)
     chk.floor("L11", 2)       # one per pool implementation at least (a shared append helper counts once)
     chk.floor("L1", 25)
     chk.floor("L2", 10)
@@ -661,6 +663,73 @@ def pre_create_blocks(ctor):
                 after.add(s)
                 stack.append(s)
     return {b for b in ctor.blocks if b not in after and b not in cr}
+
+
+def count_balance_rule(chk, prog, unit):
+    """L12: the pool counts the items it owes the submitter (`item_count`; dequeue answers NULL at once when it is 0, the
+    block processor asks until then).  In the implementation of thread_pool_t.dequeue every way to a return that may hand an
+    item back passes the decrement of that counter -- in the function or in a static helper on the way.  An item that is
+    handed back uncounted stays owed for ever: the next dequeue on the empty pool waits for a completion that cannot come."""
+    from ..errflow import ret_sources
+    n = 0
+
+    def decrements(i):
+        if i.op != "store":
+            return False
+        q = strip_casts(i.ops[1])
+        if not (q.is_inst and q.op == "getelementptr" and q.field()):
+            return False
+        v = i.ops[0]
+        while v.is_inst and v.op in ("zext", "sext", "trunc"):
+            v = v.ops[0]
+        if not (v.is_inst and v.op in ("add", "sub")):
+            return False
+        k = [o for o in v.ops if o.is_const and o.is_int]
+        ld = [o for o in v.ops if o.is_inst and o.op == "load" and strip_casts(o.ops[0]).is_inst and
+              strip_casts(o.ops[0]).op == "getelementptr" and strip_casts(o.ops[0]).field() == q.field()]
+        if not k or not ld:
+            return False
+        return (v.op == "sub" and k[0].sval == 1) or (v.op == "add" and k[0].sval == -1)
+
+    def fn_decrements(g, depth=0):
+        g.build()
+        return any(decrements(i) for i in g.insts()) or (depth < 2 and any(
+            (prog.fn(c.callee, g.unit) is not None and not prog.fn(c.callee, g.unit).decl and prog.fn(c.callee, g.unit).unit is unit
+             and fn_decrements(prog.fn(c.callee, g.unit), depth + 1)) for c in g.calls() if c.callee))
+    for f in prog.slot_impls(("struct.thread_pool_t", "dequeue")):
+        if f.unit is not unit or f.decl:
+            continue
+        f.build()
+        dec_blocks = set()
+        for i in f.insts():
+            if decrements(i):
+                dec_blocks.add(i.bb)
+            elif i.op == "call" and i.callee:
+                g = prog.fn(i.callee, f.unit)
+                if g is not None and not g.decl and g.unit is unit and fn_decrements(g):
+                    dec_blocks.add(i.bb)
+        if not dec_blocks:
+            chk.note("L12: %s keeps no count of the items in flight" % f.name)
+            continue
+        n += 1
+        chk.analysed(f)
+        items = {b for (v, b) in ret_sources(f) if not (strip_casts(v).is_const and strip_casts(v).is_null)}
+        seen, work, bad = set(), [f.blocks[0]], None
+        while work and bad is None:
+            b = work.pop()
+            if b in seen or b in dec_blocks:
+                continue
+            seen.add(b)
+            if b in items:
+                bad = b
+            work.extend(b.succs)
+        inst = "%s:item_count" % f.name
+        if bad is None:
+            chk.ok("L12", inst, f, "every way to a return that may hand an item back passes the decrement of the in-flight count")
+        else:
+            chk.violation("L12", inst, bad.term, "an item can be handed back on a way that does not decrement the count of items in "
+                          "flight: the count never reaches 0 again, and a dequeue on the drained pool waits for ever")
+    return n
 
 
 def tail_append_rule(chk, prog0, units=(("libsquashfs.la", "lib/util/src/threadpool.c"), ("libutil.a", "lib/util/src/threadpool_serial.c"))):
